@@ -17,6 +17,15 @@ Section Samplers.
   Definition one : F := fmul A (f2 A) (fhalf A).
   Definition uniform_int (lo hi u : F) : F :=
     let r := ffloor A (uniform_real A lo (fadd A hi one) u) in if flt A hi r then hi else r.
+  (* RNG::halfNormalReal / halfNormalInt (g is the standard normal variate) *)
+  Definition half_normal_real (rmin rmax focus g : F) : F :=
+    let mean := fsub A rmax rmin in
+    let v := gaussian A mean (dv mean focus) g in
+    let v := if flt A mean v then fsub A (fmul A (f2 A) mean) v else v in
+    let r := if fle A (f0 A) v then fadd A v rmin else rmin in
+    if flt A rmax r then rmax else r.
+  Definition half_normal_int (rmin rmax focus g : F) : F :=
+    let r := ffloor A (half_normal_real rmin (fadd A rmax one) focus g) in if flt A rmax r then rmax else r.
   Fixpoint g_sample_uniform (sp : space) (tape : list F) : sv * list F :=
     match sp with
     | RV _ bs => let n := length bs in (L A (rv_sample_uniform A bs (firstn n tape)), skipn n tape)
